@@ -14,6 +14,9 @@ Ties of the model to the code
     icp.match      find() capped at 1 iteration: raw nearest-neighbour pairs -> model filter == kept pairs
     icp.trace      find() with caps 1..10: per-iteration (estimate ok, rmse, T) -> model loop flag == returned flag
   regenerated constants: lean/RomeaModel/Generated/ConstantsC06.lean, pinned by theorems.
+  the sampler and its random engine (lean/RomeaModel/Sampler.lean), single pass, BIT-EXACT (no ulp slack, `exp` included):
+    smp.new/scale/pts/corr/draw/reset/u   RansacRandomCorrespondences<T> for all eight point types: drawn indexes, weights_,
+                   cumSumWeights_, scale_ and the state of std::default_random_engine after every call
 """
 import math
 import os
@@ -39,17 +42,36 @@ EXTRA_FLAGS = ['-DC06_SCAN_PATH="%s"' % os.path.join(_REPO, 'test/data/scan2d.tx
 PROOF_MODULES = ['RomeaProofs.Properties.C06']
 HANG_SECS = 60
 TRUSTED = ['harness/c06.cpp: scripted RansacModel subclass, subclasses exposing protected members of '
-           'RansacRigidTransformationModel / FindRigidTransformationByICP (no hook in /repo)',
+           'RansacRigidTransformationModel / FindRigidTransformationByICP, and access to the PRIVATE members of '
+           'RansacRandomCorrespondences (weights_, cumSumWeights_, scale_, randomGenerator_, uniformDistribution_, resetWeights_) '
+           'through explicit template instantiation (no hook in /repo)',
            'tools/props/c06.py:regen (regex scraper of the literal thresholds)',
+           'the sampler model lean/RomeaModel/Sampler.lean is hand-written from RansacRandomCorrespondences.cpp and from libstdc++ 12 '
+           '(minstd_rand0, generate_canonical<double,53>, uniform_real_distribution, partial_sum, lower_bound); its fidelity rests on '
+           'the bit-exact smp.* correspondence ops (indexes, weights_, cumSumWeights_, scale_, engine state; all eight point types), '
+           'a differential test, not a proof; the order of Eigen\'s 2/3/4-term .sum() is measured per point type (lean/Drivers/C06.lean: '
+           'sumOrderOf) and irrelevant to the theorems',
            'the numerical envelope (error <= 0.015, consensus RMSE < sigma, outliers without influence) is a seeded PROBE of the '
            'real code, not a theorem']
-ASSUMPTIONS = ['theorems are about the control skeleton with all geometry (candidate transformations, per-correspondence errors, '
-               'nearest neighbours, the sampler) universally quantified as oracle outputs; counts below 2^24 (size_t -> float)',
+ASSUMPTIONS = ['theorems about the control skeleton take the remaining geometry (candidate transformations, per-correspondence errors, '
+               'nearest neighbours) as universally quantified oracle outputs; counts below 2^24 (size_t -> float). The sampler is INSIDE '
+               'the model (engine, generate_canonical, cumulative weights, lower_bound, weight update) but is not yet composed with the '
+               'skeleton: RansacRigidTransformationModel::draw still enters the loop theorems as an oracle',
+               'sampler theorems: exact reals for weights and coordinates (no rounding; exp is the real exponential), engine arithmetic '
+               'exact (Nat); hypotheses: legitimate engine state (proved invariant from every seed), non-negative correspondence weights, '
+               'and for the distinct-target claim a positive weight at every draw (NoCollapse) -- discharged for one-to-one lists with '
+               'positive weights whose source points differ along an axis with non-zero scale_ (WellSpread); with all weights zero the code '
+               'divides 0/0 and draws index 0 (proved at RN, observed in the tie)',
+               'sampler tie: source indexes inside the point set and more correspondences than points to draw (the asserted / unchecked '
+               'preconditions of drawPoints), finite weights >= 0, at most 400 correspondences',
                'synthetic RANSAC sets: sigma in [0.01, 0.05] (the property leaves sigma open; the 0.015 tolerance is absolute), '
                'closed-form (SVD) inner estimator as DESIGN.md C06 explains',
                'ICP probe: sigma = 0.2, LEAST_SQUARES method, identity guess, as in test/transform/test_transform.cpp']
-EXPLANATION = ('partial: Lean theorems on the RANSAC/ICP control skeleton and bookkeeping + scripted/observed differential ties + '
-               'regenerated constants; the convergence envelope on scan2d.txt and the synthetic-outlier claim are probed')
+EXPLANATION = ('partial: Lean theorems on the RANSAC/ICP control skeleton and bookkeeping and on the sampler with its random engine '
+               '(minstd_rand0 never sticks, variates in (0,1), cumulative weights / lower_bound = inverse CDF, drawn index in bounds with '
+               'positive weight, weights within [0,1] x initial, drawn targets zeroed hence pairwise distinct, determinism per object) + '
+               'scripted/observed differential ties, the sampler tie bit-exact on all eight point types + regenerated constants; the '
+               'convergence envelope on scan2d.txt and the synthetic-outlier claim are probed, not proved')
 
 TOL = 0.015
 ICP_TYPES = ['c2d', 'h2d']
@@ -447,6 +469,346 @@ def gen_synth(rng, tier):
     return cases
 
 
+# ------------------------------------------------------------------------------------------- the sampler (smp.* ops)
+LCG_A, LCG_M = 16807, 2147483647
+
+
+def _lcg(x):
+    return (LCG_A * x) % LCG_M
+
+
+def _canon(x):
+    """std::generate_canonical<double,53> over minstd_rand0 followed by uniform_real_distribution(0,1), in python doubles
+    (IEEE binary64, the same operations in the same order): new engine state, variate"""
+    g1 = _lcg(x)
+    g2 = _lcg(g1)
+    r = 2147483646.0
+    sm = 0.0 + float(g1 - 1) * 1.0
+    sm = sm + float(g2 - 1) * r
+    ret = sm / (r * r)
+    if ret >= 1.0:
+        ret = math.nextafter(1.0, 0.0)
+    return g2, ret * (1.0 - 0.0) + 0.0
+
+
+def _cum(w):
+    """computeCumSumWeights_ in python doubles"""
+    ps, acc = [], None
+    for x in w:
+        acc = x if acc is None else acc + x
+        ps.append(acc)
+    tot = ps[-1]
+    return [(v / tot if tot != 0.0 else float('nan')) for v in ps]
+
+
+def _inverse_cdf(cum, u):
+    """first position whose cumulative weight is not below u (0 when every comparison fails: the all-NaN case)"""
+    for i, c in enumerate(cum):
+        if not (c < u):
+            return i
+    return len(cum)
+
+
+def _craft_weights(rng, u, m, mode):
+    """weights whose cumulative sum at a position p is EXACTLY u (mode 0) or its neighbour below / above (mode -1 / +1):
+    the boundary between std::lower_bound and std::upper_bound.  Returns (weights, p) or None."""
+    if m < 2 or not (0.0 < u < 1.0):
+        return None
+    p = rng.int(0, min(m - 2, 40))
+    q = 10
+    while p * 8 * 2.0 ** -q >= u / 2 and q < 200:
+        q += 1
+    pre = [rng.int(1, 8) * 2.0 ** -q for _ in range(p)]
+    sm = 0.0
+    for x in pre:
+        sm += x
+    c = u if mode == 0 else (math.nextafter(u, 0.0) if mode < 0 else math.nextafter(u, 1.0))
+    wp = c - sm
+    if not (wp > 0.0) or sm + wp != c:
+        return None
+    rest = 1.0 - c
+    if not (rest > 0.0) or c + rest != 1.0:
+        return None
+    w = pre + [wp, rest] + [0.0] * (m - p - 2)
+    cum = _cum(w)
+    if cum[p] != c or cum[-1] != 1.0:
+        return None
+    return w, p
+
+
+def _smp_points(rng, dim, npts, style):
+    if style == 'cluster':
+        ncen = rng.int(1, 3)
+        cens = [[rng.uniform(-10, 10) for _ in range(dim)] for _ in range(ncen)]
+        rad = rng.choice([0.0, 1e-12, 1e-9, 1e-7, 1e-5, 1e-3])
+        pts = []
+        for _ in range(npts):
+            c = rng.choice(cens)
+            pts.append([x + (rng.gauss() * rad if rad else 0.0) for x in c])
+        for _ in range(rng.below(3)):                    # a few far points keep some weight alive
+            pts[rng.below(npts)] = [rng.uniform(-10, 10) for _ in range(dim)]
+        return pts
+    if style == 'line':                                  # a wall: one coordinate constant (scale 0 on that axis)
+        c0 = rng.uniform(-10, 10)
+        return [[c0 if d == 0 else rng.uniform(-10, 10) for d in range(dim)] for _ in range(npts)]
+    return [[rng.uniform(-10, 10) for _ in range(dim)] for _ in range(npts)]
+
+
+def _smp_corrs(rng, m, npts, style):
+    """(src, tgt, weight) triples"""
+    if style == 'reptgt':
+        pool = rng.int(1, max(1, m // 2)) if rng.chance(0.7) else rng.int(1, 3)
+        tg = [rng.below(pool) for _ in range(m)]
+        if rng.chance(0.5) or npts < m:
+            sr = [rng.below(npts) for _ in range(m)]
+        else:
+            sr = rng.shuffle(list(range(npts)))[:m]
+    elif style == 'repsrc':                              # one source matched to several targets (before the ICP filter)
+        sr = [rng.below(max(1, min(npts, m // 2))) for _ in range(m)]
+        tg = rng.shuffle(list(range(m + rng.int(0, 20))))[:m]
+    else:                                                # one to one, as the ICP filter produces (sorted by source)
+        sr = sorted(rng.shuffle(list(range(npts)))[:m])
+        tg = rng.shuffle(list(range(m + rng.int(0, 50))))[:m]
+        if rng.chance(0.3):
+            both = list(zip(sr, tg))
+            rng.shuffle(both)
+            sr, tg = [a for a, _ in both], [b for _, b in both]
+    wmode = rng.below(10)
+    if wmode < 6:
+        ws = [1.0] * m
+    elif wmode < 8:
+        ws = [rng.uniform(0.05, 2.0) for _ in range(m)]
+    else:
+        ws = [0.0 if rng.chance(0.3) else rng.uniform(0.05, 2.0) for _ in range(m)]
+        if not any(ws):
+            ws[rng.below(m)] = 1.0
+    return list(zip(sr, tg, ws))
+
+
+def _corr_line(cs):
+    return 'smp.corr %d %s' % (len(cs), ' '.join('%d %d %s' % (a, b, D(w)) for a, b, w in cs))
+
+
+def gen_smp(rng, tier):
+    q = tier == 'quick'
+    cases = []
+    per_type = 14 if q else 500
+    nmax = 400
+    j = 0
+    for ty in ALL_TYPES:
+        dim = _dim(ty)
+        for i in range(per_type):
+            j += 1
+            k = (3 if dim == 2 else 4) if rng.chance(0.8) else rng.int(1, 6)
+            stream = ['one2one', 'one2one', 'reptgt', 'cluster', 'boundary', 'prefix', 'repsrc', 'line'][i % 8]
+            if rng.chance(0.2):
+                m = rng.choice([k + 1, k + 2, nmax])
+            else:
+                m = int(rng.loguniform(k + 1, nmax + 0.99))
+            m = max(k + 1, min(nmax, m))
+            if q and m > 150 and i % 7 != 0:
+                m = rng.int(k + 1, 150)                  # quick tier: a few long lists only
+            npts = m + (rng.int(0, 30) if rng.chance(0.5) else 0)
+            pstyle = stream if stream in ('cluster', 'line') else 'spread'
+            pts = _smp_points(rng, dim, npts, pstyle)
+            if rng.chance(0.75):                          # as PointSetPreconditioner reports them
+                lo = [min(p[d] for p in pts) for d in range(dim)]
+                hi = [max(p[d] for p in pts) for d in range(dim)]
+            else:
+                lo = [rng.uniform(-12, 0) for _ in range(dim)]
+                hi = [l + rng.choice([0.0, 1e-3, 1.0, 25.0]) for l in lo]
+            cstyle = stream if stream in ('reptgt', 'repsrc') else ('reptgt' if stream == 'cluster' and rng.chance(0.3) else 'one2one')
+            cs = _smp_corrs(rng, m, npts, cstyle)
+            scale_line = 'smp.scale %s' % ' '.join(D(x) for x in lo + hi)
+            pts_line = 'smp.pts %d %s' % (npts, ' '.join(D(c) for p in pts for c in p))
+            lines = ['smp.new ' + ty]
+            if stream == 'prefix':
+                # the same call on fresh objects with 1, 2, … k points to draw: every answer is a prefix of the next, and the
+                # weights left behind by the first j draws are observed before the (j+1)-th
+                lines += [pts_line, _corr_line(cs)]
+                for kk in range(1, k + 1):
+                    if kk > 1:
+                        lines.append('smp.new ' + ty)
+                    lines += [scale_line, 'smp.draw %d' % kk]
+                cases.append(_case('smp-%s-%d' % (ty, j), lines, ty=ty, stream=stream, k=k, m=m, prefix=True))
+                continue
+            body = [scale_line, pts_line]
+            eng = 1
+            nd = rng.int(1, 4)
+            cur = cs
+            for d_ in range(nd):
+                r = rng.below(10)
+                if r == 0:
+                    nu = rng.int(1, 5)
+                    body.append('smp.u %d' % nu)
+                    for _ in range(nu):
+                        eng, _u = _canon(eng)
+                if stream == 'boundary':
+                    # the first variate of the coming call is known (the engine is deterministic): put a cumulative weight
+                    # exactly on it / one ulp below / one ulp above
+                    _e, u = _canon(eng)
+                    cw = _craft_weights(rng, u, m, rng.choice([0, 0, -1, 1]))
+                    if cw is not None:
+                        cur = [(a, b, w) for (a, b, _w), w in zip(cur, cw[0])]
+                        body.append(_corr_line(cur))
+                    elif d_ == 0:
+                        body.append(_corr_line(cur))
+                elif d_ == 0 or rng.chance(0.3):
+                    if d_ > 0:
+                        cur = _smp_corrs(rng, m, npts, cstyle)
+                    body.append(_corr_line(cur))
+                body.append('smp.draw %d' % k)
+                for _ in range(k):
+                    eng, _u = _canon(eng)
+                if rng.chance(0.1):
+                    body.append('smp.reset')
+                if rng.chance(0.1):
+                    body.append(scale_line)
+            lines += body
+            if rng.chance(0.5):                           # a second fresh object given the same calls
+                lines += ['smp.new ' + ty] + body
+            cases.append(_case('smp-%s-%d' % (ty, j), lines, ty=ty, stream=stream, k=k, m=m))
+    # the engine alone: long streams of variates from a fresh object
+    for i in range(2 if q else 20):
+        cases.append(_case('smp-u-%d' % i, ['smp.new c2d', 'smp.u %d' % (2000 if q else 10000), 'smp.u 7', 'smp.new h3f', 'smp.u 9'],
+                           stream='engine'))
+    return cases
+
+
+def _smp_oracle(st, case, tk, f, bad, stats):
+    """the sampler's part of the property, evaluated on the IMPLEMENTATION's answers only:
+    indexes in range and copied from the list, first index = inverse CDF of the reloaded weights at the engine's variate,
+    the engine advances by exactly two steps per drawn point and is never reseeded, weights within [0, 1] x their initial
+    value and zero on every correspondence sharing a drawn target, cumulative weights non-decreasing and ending at 1 (NaN when
+    everything is zero), pairwise distinct targets unless the weights collapsed, equal answers of fresh objects given equal calls."""
+    op = tk[0]
+    cnt = lambda key, n=1: stats.__setitem__(key, stats.get(key, 0) + n)
+    if op == 'smp.new':
+        # a finished segment is remembered for the fresh-object comparison
+        if st.get('seg_ops'):
+            st.setdefault('segs', []).append((st['seg_ops'], st['seg_out']))
+        st['seg_ops'], st['seg_out'] = [], []
+        if st.get('ty') != tk[1]:
+            st['pts'], st['corrs'] = 0, []
+        st['ty'] = tk[1]
+        st['eng'] = 1
+        if f[:3] != ['ok', 'eng', '1'] or any(tok_val(x) != 0.0 for x in f[4:]):
+            bad('sampler-engine', 'a fresh sampler does not start from the default seed 1 / zero scale')
+        return
+    if 'eng' not in st:
+        bad('sampler-protocol', 'op before smp.new')
+        return
+    st['seg_ops'].append(' '.join(tk))
+    st['seg_out'].append(' '.join(f))
+    if op == 'smp.pts':
+        st['pts'] = int(tk[1])
+    elif op == 'smp.corr':
+        m = int(tk[1])
+        st['corrs'] = [(int(tk[2 + 3 * i]), int(tk[3 + 3 * i]), tok_val(tk[4 + 3 * i])) for i in range(m)]
+    elif op == 'smp.u':
+        k = int(tk[1])
+        us = [tok_val(x) for x in f[2:2 + k]]
+        e = st['eng']
+        for u in us:
+            e, ref = _canon(e)
+            if not (0.0 < u < 1.0):
+                bad('sampler-uniform', 'variate %r outside (0, 1)' % u)
+                break
+            if u != ref:
+                bad('sampler-uniform', 'variate %r is not generate_canonical of the engine sequence (%r)' % (u, ref))
+                break
+        cnt('smp_variates', k)
+        if f[-2] != 'eng' or int(f[-1]) != e or not (1 <= int(f[-1]) <= LCG_M - 1):
+            bad('sampler-engine', 'engine state %s after %d variates, expected %d' % (f[-1], k, e))
+        st['eng'] = int(f[-1])
+    elif op == 'smp.reset':
+        pass
+    elif op == 'smp.draw':
+        k = int(tk[1])
+        cs = st['corrs']
+        m = len(cs)
+        iw, ic, ie = f.index('w'), f.index('c'), len(f) - 2
+        drawn = [tuple(int(v) for v in x.split(':')) for x in f[2:iw]]
+        w = [tok_val(x) for x in f[iw + 2:ic]]
+        c = [tok_val(x) for x in f[ic + 2:ie]]
+        cnt('smp_draw_calls')
+        cnt('smp_drawn_points', k)
+        if int(f[1]) != k or len(drawn) != k:
+            bad('sampler-range', 'asked for %d correspondences, got %d' % (k, len(drawn)))
+            return
+        if any(not (0 <= d[0] < m) or (d[1], d[2]) != cs[d[0]][:2] for d in drawn):
+            bad('sampler-range', 'a drawn correspondence is not an element of the list')
+            return
+        # engine: two steps per drawn point from where the previous call left it
+        e = st['eng']
+        us = []
+        for _ in range(k):
+            e, u = _canon(e)
+            us.append(u)
+        if f[ie] != 'eng' or int(f[ie + 1]) != e:
+            bad('sampler-engine', 'engine state %s after the call, expected %d (two steps per drawn point, never reseeded)' % (f[ie + 1], e),
+                draw_call=len([o for o in st['seg_ops'] if o.startswith('smp.draw')]))
+        st['eng'] = int(f[ie + 1])
+        # first index: inverse CDF of the reloaded weights
+        w0 = [x[2] for x in cs]
+        exp0 = _inverse_cdf(_cum(w0), us[0])
+        if drawn[0][0] != exp0:
+            bad('sampler-inverse-cdf', 'first drawn index %d, the first cumulative weight >= u=%r is at %d' % (drawn[0][0], us[0], exp0))
+        cnt('smp_first_on_boundary', 1 if (exp0 < m and _cum(w0)[exp0] == us[0]) else 0)
+        # weights
+        if len(w) != m or len(c) != m:
+            bad('sampler-weights', 'weights_/cumSumWeights_ have sizes %d/%d for %d correspondences' % (len(w), len(c), m))
+            return
+        if any(not (0.0 <= a <= b) for a, b in zip(w, w0)):
+            bad('sampler-weights', 'a weight left [0, 1] x its initial value')
+        tg = set(d[2] for d in drawn)
+        if any(w[i] != 0.0 for i in range(m) if cs[i][1] in tg):
+            bad('sampler-weights', 'a correspondence sharing the target of a drawn one kept a positive weight')
+        total = sum(w)
+        if total > 0.0:
+            if any(not (0.0 <= a <= b <= 1.0) for a, b in zip(c, c[1:])) or c[-1] != 1.0 or not (0.0 <= c[0] <= 1.0):
+                bad('sampler-weights', 'cumulative weights not non-decreasing in [0, 1] ending at exactly 1')
+        elif any(x == x for x in c):
+            bad('sampler-weights', 'all weights zero but the cumulative weights are not 0/0')
+        # distinct targets (the claim holds while some weight is positive when a point is drawn)
+        alive = [None] * k          # alive[j]: was some weight positive before the (j+1)-th point was drawn?
+        alive[0] = any(x > 0.0 for x in w0)
+        if total > 0.0:
+            alive = [True] * k
+        pre = st.setdefault('prefix', {})
+        for j in range(1, k):
+            if alive[j] is None and j in pre and pre[j][0] == [d[0] for d in drawn[:j]]:
+                alive[j] = pre[j][1] > 0.0
+        for j in range(k):
+            if alive[j]:
+                cnt('smp_distinct_checked')
+                if cs[drawn[j][0]][2] <= 0.0:
+                    bad('sampler-distinct-targets', 'point %d drawn with initial weight 0' % j)
+                if drawn[j][2] in [d[2] for d in drawn[:j]]:
+                    bad('sampler-distinct-targets', 'drawn points %s: target index %d repeats although weights were positive' % (drawn, drawn[j][2]),
+                        k=k, m=m)
+            elif alive[j] is None:
+                cnt('smp_collapse_unknown')
+            else:
+                cnt('smp_collapsed_draws')          # 0/0 cumulative weights: the code returns index 0 (theorem `collapse_draws_index_zero`)
+        if case.get('meta', {}).get('prefix'):
+            for kk, (idxs, _t) in pre.items():
+                if kk < k and idxs != [d[0] for d in drawn[:kk]]:
+                    bad('sampler-determinism', 'fresh object asked for %d points drew %s, asked for %d drew %s' % (kk, idxs, k, drawn))
+            pre[k] = ([d[0] for d in drawn], total)
+            cnt('smp_prefix_calls')
+    # fresh objects given the same calls answer the same
+    segs = st.get('segs', [])
+    n = len(st['seg_ops'])
+    for ops, outs in segs:
+        if len(ops) >= n and ops[:n] == st['seg_ops']:
+            cnt('smp_replayed_ops')
+            if outs[n - 1] != st['seg_out'][n - 1]:
+                bad('sampler-determinism', 'two fresh objects given the same %d calls answered differently' % n)
+            break
+
+
+
 def gen_cases(rng, tier):
     q = tier == 'quick'
     cases = []
@@ -456,6 +818,7 @@ def gen_cases(rng, tier):
     cases += gen_filter(rng.fork(), 300 if q else 20000)
     cases += gen_icp(rng.fork(), tier)
     cases += gen_synth(rng.fork(), tier)
+    cases += gen_smp(rng.fork(), tier)
     return cases
 
 
@@ -470,6 +833,8 @@ def compare(case, li, op, impl, model):
         return model == 'probe-only'          # compared in the second pass (extra_probe)
     if impl == model:
         return True
+    if name.startswith('smp.'):
+        return False                          # the sampler tie is bit-exact: indexes, weights, engine state
     a, b = impl.split(), model.split()
     if len(a) != len(b):
         return False
@@ -590,6 +955,8 @@ def oracle(case, out, stats):
                     ret, err, rmse, sigma, tk[3], case.get('meta', {}).get('outliers')), type=tk[1])
         elif op in ('rr.real', 'icp.trace', 'icp.match'):
             _PHASE2.append((ci, op, line, o))
+        elif op.startswith('smp.'):
+            _smp_oracle(st.setdefault('smp', {}), case, tk, f, bad, stats)
     return fails
 
 
